@@ -86,7 +86,59 @@ func specFor(tab *sszreg.Table, fork string) *common.Spec {
 }
 
 // baseState: genesis with nValidators real keys (sk = i+1), upgraded at slot 0 up to the requested fork.
+// distinctSyncCommittees makes next_sync_committee differ from current_sync_committee (the genesis/upgrade path computes
+// the same committee twice): the same members rotated by one position, so the aggregate key stays valid.  Without this a
+// rotation that keeps the wrong committee would be invisible.
+func distinctSyncCommittees(spec *common.Spec, st common.BeaconState, epc *common.EpochsContext) {
+	ss, ok := st.(common.SyncCommitteeBeaconState)
+	if !ok {
+		return
+	}
+	cur, err := ss.CurrentSyncCommittee()
+	if err != nil {
+		die("sync committee: %v", err)
+	}
+	pv, err := cur.Pubkeys()
+	if err != nil {
+		die("sync committee: %v", err)
+	}
+	pubs, err := pv.Flatten()
+	if err != nil {
+		die("sync committee: %v", err)
+	}
+	agg, err := cur.AggregatePubkey()
+	if err != nil {
+		die("sync committee: %v", err)
+	}
+	rot := append(append([]common.BLSPubkey{}, pubs[1:]...), pubs[0])
+	distinct := false
+	for i := range rot {
+		if rot[i] != pubs[i] {
+			distinct = true
+		}
+	}
+	if !distinct {
+		die("cannot build a next sync committee that differs from the current one")
+	}
+	nv, err := (&common.SyncCommittee{Pubkeys: rot, AggregatePubkey: agg}).View(spec)
+	if err != nil {
+		die("sync committee view: %v", err)
+	}
+	if err := ss.SetNextSyncCommittee(nv); err != nil {
+		die("SetNextSyncCommittee: %v", err)
+	}
+	if err := epc.LoadSyncCommittees(ss); err != nil {
+		die("LoadSyncCommittees: %v", err)
+	}
+}
+
 func baseState(spec *common.Spec) (common.BeaconState, *common.EpochsContext) {
+	st, epc := baseStateRaw(spec)
+	distinctSyncCommittees(spec, st, epc)
+	return st, epc
+}
+
+func baseStateRaw(spec *common.Spec) (common.BeaconState, *common.EpochsContext) {
 	vals := make([]phase0.KickstartValidatorData, nValidators)
 	for i := range vals {
 		var raw [32]byte
@@ -491,45 +543,45 @@ func accessors(fork string) map[string]accessor {
 	cp := wrapOf(common.AsCheckPoint)
 	sc := wrapOf(common.AsSyncCommittee)
 	return map[string]accessor{
-		"genesis_time":                    {get: "GenesisTime", set: "SetGenesisTime"},
-		"genesis_validators_root":         {get: "GenesisValidatorsRoot", set: "SetGenesisValidatorsRoot"},
-		"slot":                            {get: "Slot", set: "SetSlot"},
-		"fork":                            {get: "Fork", set: "SetFork", wrap: wrapOf(common.AsFork)},
-		"latest_block_header":             {get: "LatestBlockHeader", set: "SetLatestBlockHeader", wrap: wrapOf(common.AsBeaconBlockHeader)},
-		"block_roots":                     {sub: "BlockRoots", getElem: "GetRoot", setElem: "SetRoot"},
-		"state_roots":                     {sub: "StateRoots", getElem: "GetRoot", setElem: "SetRoot"},
-		"historical_roots":                {sub: "HistoricalRoots", appendM: "Append"},
-		"eth1_data":                       {get: "Eth1Data", set: "SetEth1Data", wrap: wrapOf(common.AsEth1Data)},
-		"eth1_data_votes":                 {sub: "Eth1DataVotes", appendM: "Append", resetM: "Reset"},
-		"eth1_deposit_index":              {get: "Eth1DepositIndex", bump: "IncrementDepositIndex"},
-		"validators":                      {sub: "Validators", getElem: "Validator", touch: true},
-		"balances":                        {sub: "Balances", getElem: "GetBalance", setElem: "SetBalance", appendM: "AppendBalance", setAll: "SetBalances"},
-		"randao_mixes":                    {sub: "RandaoMixes", getElem: "GetRandomMix", setElem: "SetRandomMix", fill: "SeedRandao"},
-		"slashings":                       {sub: "Slashings", getElem: "GetSlashingsValue", setElem: "+ResetSlashings+AddSlashing"},
-		"previous_epoch_attestations":     {sub: "PreviousEpochAttestations"},
-		"current_epoch_attestations":      {sub: "CurrentEpochAttestations"},
-		"previous_epoch_participation":    {sub: "PreviousEpochParticipation", getElem: "GetFlags", setElem: "SetFlags"},
-		"current_epoch_participation":     {sub: "CurrentEpochParticipation", getElem: "GetFlags", setElem: "SetFlags"},
-		"justification_bits":              {get: "JustificationBits", set: "SetJustificationBits"},
-		"previous_justified_checkpoint":   {get: "PreviousJustifiedCheckpoint", set: "SetPreviousJustifiedCheckpoint", wrap: cp},
-		"current_justified_checkpoint":    {get: "CurrentJustifiedCheckpoint", set: "SetCurrentJustifiedCheckpoint", wrap: cp},
-		"finalized_checkpoint":            {get: "FinalizedCheckpoint", set: "SetFinalizedCheckpoint", wrap: cp},
-		"inactivity_scores":               {sub: "InactivityScores", getElem: "GetScore", setElem: "SetScore"},
-		"current_sync_committee":          {get: "CurrentSyncCommittee", set: "SetCurrentSyncCommittee", wrap: sc, copyField: true},
-		"next_sync_committee":             {get: "NextSyncCommittee", set: "SetNextSyncCommittee", wrap: sc, copyField: true},
-		"latest_execution_payload_header": {get: "LatestExecutionPayloadHeader", set: "SetLatestExecutionPayloadHeader", wrap: hdr},
-		"next_withdrawal_index":           {get: "NextWithdrawalIndex", set: "SetNextWithdrawalIndex", bump: "IncrementNextWithdrawalIndex"},
-		"next_withdrawal_validator_index": {get: "NextWithdrawalValidatorIndex", set: "SetNextWithdrawalValidatorIndex"},
-		"historical_summaries":            {sub: "HistoricalSummaries", appendM: "Append"},
-		"deposit_requests_start_index":    {get: "DepositRequestsStartIndex", set: "SetDepositRequestsStartIndex"},
-		"deposit_balance_to_consume":      {get: "DepositBalanceToConsume", set: "SetDepositBalanceToConsume"},
-		"exit_balance_to_consume":         {get: "ExitBalanceToConsume", set: "SetExitBalanceToConsume"},
-		"earliest_exit_epoch":             {get: "EarliestExitEpoch", set: "SetEarliestExitEpoch"},
+		"genesis_time":                     {get: "GenesisTime", set: "SetGenesisTime"},
+		"genesis_validators_root":          {get: "GenesisValidatorsRoot", set: "SetGenesisValidatorsRoot"},
+		"slot":                             {get: "Slot", set: "SetSlot"},
+		"fork":                             {get: "Fork", set: "SetFork", wrap: wrapOf(common.AsFork)},
+		"latest_block_header":              {get: "LatestBlockHeader", set: "SetLatestBlockHeader", wrap: wrapOf(common.AsBeaconBlockHeader)},
+		"block_roots":                      {sub: "BlockRoots", getElem: "GetRoot", setElem: "SetRoot"},
+		"state_roots":                      {sub: "StateRoots", getElem: "GetRoot", setElem: "SetRoot"},
+		"historical_roots":                 {sub: "HistoricalRoots", appendM: "Append"},
+		"eth1_data":                        {get: "Eth1Data", set: "SetEth1Data", wrap: wrapOf(common.AsEth1Data)},
+		"eth1_data_votes":                  {sub: "Eth1DataVotes", appendM: "Append", resetM: "Reset"},
+		"eth1_deposit_index":               {get: "Eth1DepositIndex", bump: "IncrementDepositIndex"},
+		"validators":                       {sub: "Validators", getElem: "Validator", touch: true},
+		"balances":                         {sub: "Balances", getElem: "GetBalance", setElem: "SetBalance", appendM: "AppendBalance", setAll: "SetBalances"},
+		"randao_mixes":                     {sub: "RandaoMixes", getElem: "GetRandomMix", setElem: "SetRandomMix", fill: "SeedRandao"},
+		"slashings":                        {sub: "Slashings", getElem: "GetSlashingsValue", setElem: "+ResetSlashings+AddSlashing"},
+		"previous_epoch_attestations":      {sub: "PreviousEpochAttestations", appendM: "Append"},
+		"current_epoch_attestations":       {sub: "CurrentEpochAttestations", appendM: "Append"},
+		"previous_epoch_participation":     {sub: "PreviousEpochParticipation", getElem: "GetFlags", setElem: "SetFlags"},
+		"current_epoch_participation":      {sub: "CurrentEpochParticipation", getElem: "GetFlags", setElem: "SetFlags"},
+		"justification_bits":               {get: "JustificationBits", set: "SetJustificationBits"},
+		"previous_justified_checkpoint":    {get: "PreviousJustifiedCheckpoint", set: "SetPreviousJustifiedCheckpoint", wrap: cp},
+		"current_justified_checkpoint":     {get: "CurrentJustifiedCheckpoint", set: "SetCurrentJustifiedCheckpoint", wrap: cp},
+		"finalized_checkpoint":             {get: "FinalizedCheckpoint", set: "SetFinalizedCheckpoint", wrap: cp},
+		"inactivity_scores":                {sub: "InactivityScores", getElem: "GetScore", setElem: "SetScore"},
+		"current_sync_committee":           {get: "CurrentSyncCommittee", set: "SetCurrentSyncCommittee", wrap: sc, copyField: true},
+		"next_sync_committee":              {get: "NextSyncCommittee", set: "SetNextSyncCommittee", wrap: sc, copyField: true},
+		"latest_execution_payload_header":  {get: "LatestExecutionPayloadHeader", set: "SetLatestExecutionPayloadHeader", wrap: hdr},
+		"next_withdrawal_index":            {get: "NextWithdrawalIndex", set: "SetNextWithdrawalIndex", bump: "IncrementNextWithdrawalIndex"},
+		"next_withdrawal_validator_index":  {get: "NextWithdrawalValidatorIndex", set: "SetNextWithdrawalValidatorIndex"},
+		"historical_summaries":             {sub: "HistoricalSummaries", appendM: "Append"},
+		"deposit_requests_start_index":     {get: "DepositRequestsStartIndex", set: "SetDepositRequestsStartIndex"},
+		"deposit_balance_to_consume":       {get: "DepositBalanceToConsume", set: "SetDepositBalanceToConsume"},
+		"exit_balance_to_consume":          {get: "ExitBalanceToConsume", set: "SetExitBalanceToConsume"},
+		"earliest_exit_epoch":              {get: "EarliestExitEpoch", set: "SetEarliestExitEpoch"},
 		"consolidation_balance_to_consume": {get: "ConsolidationBalanceToConsume", set: "SetConsolidationBalanceToConsume"},
-		"earliest_consolidation_epoch":    {get: "EarliestConsolidationEpoch", set: "SetEarliestConsolidationEpoch"},
-		"pending_deposits":                {},
-		"pending_partial_withdrawals":     {},
-		"pending_consolidations":          {},
+		"earliest_consolidation_epoch":     {get: "EarliestConsolidationEpoch", set: "SetEarliestConsolidationEpoch"},
+		"pending_deposits":                 {},
+		"pending_partial_withdrawals":      {},
+		"pending_consolidations":           {},
 	}
 }
 
@@ -583,6 +635,13 @@ func (e *env) fields(base common.BeaconState) ([]*fieldInfo, error) {
 			}
 			if a.copyField {
 				ops = append(ops, "copyfield")
+			}
+			if hasMethod(base, "RotateSyncCommittee") {
+				if f.Name == "current_sync_committee" {
+					ops = append(ops, "rotatecur")
+				} else if f.Name == "next_sync_committee" {
+					ops = append(ops, "rotatenext")
+				}
 			}
 		} else {
 			if a.setElem != "" {
@@ -716,7 +775,7 @@ type replayer struct {
 	lastStep *step
 	desync   map[string]bool
 	// everything the replayer (= the caller) passed to the library in this behaviour: scribbled over by "scribble" steps
-	args []reflect.Value
+	args  []reflect.Value
 	avKey int
 }
 
@@ -732,11 +791,19 @@ func (r *replayer) dev(prop, class, field, op, hd, f string, a ...interface{}) {
 	r.devs = append(r.devs, Dev{prop, class, field, op, hd, r.stepNo, fmt.Sprintf(f, a...)})
 }
 
-func (r *replayer) fresh() *handle {
+// fresh returns the start state of a behaviour: alternately the tree the library's own constructors built (genesis:
+// SeedRandao, deposits; fork upgrades) and the same state decoded from its encoding ("loaded from encoded bytes").
+func (r *replayer) fresh(n int) *handle {
+	if n%2 == 1 {
+		st, epc := baseState(r.e.spec)
+		r.stats["start_constructor_built"]++
+		return &handle{st: st, epc: epc}
+	}
 	st, err := decodeState(r.e.fork, r.e.spec, r.baseSSZ)
 	if err != nil {
 		die("reloading base state: %v", err)
 	}
+	r.stats["start_decoded_from_bytes"]++
 	return &handle{st: st, epc: r.baseEpc.Clone()}
 }
 
@@ -755,11 +822,20 @@ func (r *replayer) tokenValue(fi *fieldInfo, tok int, elem bool) (interface{}, b
 		if elem {
 			s, t = fi.schema.Elem, elemType(fi.goType)
 		}
-		_, js, err := r.e.concrete(fi.Name, tok, s, t)
+		_, js, err := r.e.concrete(valueKey(fi.Name), tok, s, t)
 		return js, true, err
 	}
 	v, ok := r.bind[tok]
 	return v, ok, nil
+}
+
+// valueKey: value ids are per field, except where the model moves content between fields (RotateSyncCommittee moves
+// the next committee into current): those fields share one value space
+func valueKey(field string) string {
+	if field == "current_sync_committee" || field == "next_sync_committee" {
+		return "sync_committee"
+	}
+	return field
 }
 
 func elemType(t reflect.Type) reflect.Type {
@@ -1130,6 +1206,18 @@ func (r *replayer) checkBulkReads(hd string, h *handle, proj map[string]interfac
 		}
 	}
 
+	// ---- derived read of the execution header (bellatrix): merge completed <=> the header is not the default header
+	if hasMethod(h.st, "IsTransitionCompleted") {
+		cur = "latest_execution_payload_header"
+		if out, err := callRec(h.st, "IsTransitionCompleted", r.e.spec); err != nil {
+			fail(cur, "is_transition_completed", err)
+		} else {
+			fi := r.byName[cur]
+			zero := norm(reflect.New(fi.goType).Interface())
+			cmp(cur, "is_transition_completed", out[0].Bool(), !reflect.DeepEqual(proj[cur], zero), "IsTransitionCompleted")
+		}
+	}
+
 	// ---- fork-specific sub-views, reached by name
 	for _, fi := range r.flds {
 		a := r.acc[fi.Name]
@@ -1291,6 +1379,11 @@ func (r *replayer) checkRoots(hd string, h *handle, raw interface{}, op string) 
 		return
 	}
 	r.stats["root_checks"]++
+	for _, fi := range r.flds {
+		if fi.Kind == "vec" && fi.Len&(fi.Len-1) != 0 {
+			r.stats["vector_length_not_power_of_two"]++
+		}
+	}
 	defer func() {
 		if rec := recover(); rec != nil {
 			r.poisoned[hd] = true
@@ -1396,7 +1489,7 @@ func (r *replayer) typedArg(fi *fieldInfo, id int, elem bool) (reflect.Value, in
 	if elem {
 		s, t = fi.schema.Elem, elemType(fi.goType)
 	}
-	v, js, err := r.e.concrete(fi.Name, id, s, t)
+	v, js, err := r.e.concrete(valueKey(fi.Name), id, s, t)
 	if err != nil {
 		die("%v", err)
 	}
@@ -1430,8 +1523,11 @@ func (r *replayer) setterArg(obj interface{}, method string, val reflect.Value) 
 		return val.Convert(want), nil
 	}
 	// a view is wanted: the struct form offers View / View(spec)
-	p := reflect.New(val.Type())
-	p.Elem().Set(val)
+	p := val
+	if val.Kind() != reflect.Ptr {
+		p = reflect.New(val.Type())
+		p.Elem().Set(val)
+	}
 	r.args = append(r.args, p) // the struct a view argument is converted from stays with the caller
 	if hasMethod(p.Interface(), "View") {
 		out, err := callRec(p.Interface(), "View", r.e.spec)
@@ -1542,7 +1638,18 @@ func (r *replayer) apply(s *step) {
 		if err != nil {
 			die("%v", err)
 		}
-		if _, err := callRec(sub[0].Interface(), a.appendM, r.e.spec, arg); err != nil {
+		atLimit := false
+		if proj, _, perr := r.e.project(h); perr == nil {
+			arr, _ := proj[fi.Name].([]interface{})
+			atLimit = uint64(len(arr)) >= fi.schema.Lim.Value()
+		}
+		_, err = callRec(sub[0].Interface(), a.appendM, r.e.spec, arg)
+		switch {
+		case atLimit && err == nil:
+			r.dev("C15", "append_beyond_limit", fi.Name, s.Op, s.H, "%s accepted an element although the list is at its limit %d", a.appendM, fi.schema.Lim.Value())
+		case atLimit: // a full list refuses the element (only reachable when the model does not know the length)
+			r.stats["append_refused_at_limit"]++
+		case err != nil:
 			fail("%s: %v", a.appendM, err)
 		}
 	case "reset":
@@ -1610,6 +1717,19 @@ func (r *replayer) apply(s *step) {
 		r.advance(s, h)
 	case "addvalidator":
 		r.addValidator(s, h)
+	case "rotate":
+		nfi := r.byName["next_sync_committee"]
+		if before, _, err := r.e.project(h); err == nil && !reflect.DeepEqual(before["current_sync_committee"], before["next_sync_committee"]) {
+			r.stats["rotate_with_distinct_committees"]++
+		}
+		val, _ := r.typedArg(nfi, s.V, false)
+		arg, err := r.setterArg(h.st, "RotateSyncCommittee", val)
+		if err != nil {
+			die("%v", err)
+		}
+		if _, err := callRec(h.st, "RotateSyncCommittee", r.e.spec, arg); err != nil {
+			r.dev("C15", "accessor_error", "next_sync_committee", s.Op, s.H, "RotateSyncCommittee: %v", err)
+		}
 	case "scribble":
 		r.scribble(s)
 	default:
@@ -2076,6 +2196,71 @@ func (r *replayer) probeSubViewSetters(hd string, h *handle) {
 	}
 }
 
+// classifyMethods lists every method of the fork's BeaconStateView with how the replayer drives it; a method that is
+// neither bound nor deliberately left out is an error (a new accessor must be classified before the check runs again).
+func classifyMethods(fork string, base common.BeaconState) (map[string]string, error) {
+	generic := map[string]bool{}
+	ct := reflect.TypeOf(&view.ContainerView{})
+	for i := 0; i < ct.NumMethod(); i++ {
+		generic[ct.Method(i).Name] = true
+	}
+	bound := map[string]string{
+		"AddValidator": "action addvalidator", "RotateSyncCommittee": "action rotate", "CopyState": "action copy",
+		"Raw": "projection after every step", "HashTreeRoot": "root check after every step", "Serialize": "rebuild-from-bytes root check",
+		"Get": "sub-view probes (generic field access)", "ProcessEpoch": "action advance (common.ProcessSlots)",
+		"IsTransitionCompleted": "derived read of latest_execution_payload_header, compared after every step",
+	}
+	for field, a := range accessors(fork) {
+		for _, m := range []struct{ name, how string }{{a.get, "getter of " + field}, {a.set, "action set on " + field},
+			{a.bump, "action bump on " + field}, {a.sub, "sub-view of " + field}, {a.setAll, "action setall on " + field},
+			{a.fill, "action fill on " + field}} {
+			if m.name != "" {
+				bound[m.name] = m.how
+			}
+		}
+	}
+	notBound := map[string]string{
+		"ForkSettings":       "not bound: pure function of the configuration, reads and writes no state",
+		"ProcessBlock":       "not bound: block processing belongs to the transition properties (C01/C03)",
+		"IsExecutionEnabled": "not bound: predicate over a block argument, part of block processing (C01/C03)",
+		"IsTransitionBlock":  "not bound: predicate over a block argument, part of block processing (C01/C03)",
+	}
+	out := map[string]string{}
+	t := reflect.TypeOf(base)
+	var unclassified []string
+	for i := 0; i < t.NumMethod(); i++ {
+		name := t.Method(i).Name
+		switch {
+		case bound[name] != "":
+			out[name] = "bound: " + bound[name]
+		case notBound[name] != "":
+			out[name] = notBound[name]
+		case generic[name]:
+			out[name] = "not bound: generic ztyp container-view method (promoted), not a typed accessor"
+		default:
+			unclassified = append(unclassified, name)
+		}
+	}
+	if len(unclassified) > 0 {
+		return out, fmt.Errorf("%s.BeaconStateView has methods the binding table does not classify: %v", fork, unclassified)
+	}
+	return out, nil
+}
+
+func cmdMethods(args []string) {
+	fs := flag.NewFlagSet("methods", flag.ExitOnError)
+	fork := fs.String("fork", "phase0", "")
+	schemas := fs.String("schemas", "", "")
+	fs.Parse(args)
+	_, base, _ := setup(*fork, *schemas, 1)
+	m, err := classifyMethods(*fork, base)
+	js, _ := json.Marshal(m)
+	fmt.Println(string(js))
+	if err != nil {
+		die("%v", err)
+	}
+}
+
 func cmdCaps(args []string) {
 	fs := flag.NewFlagSet("caps", flag.ExitOnError)
 	fork := fs.String("fork", "phase0", "")
@@ -2084,6 +2269,9 @@ func cmdCaps(args []string) {
 	e, base, _ := setup(*fork, *schemas, 1)
 	flds, err := e.fields(base)
 	if err != nil {
+		die("%v", err)
+	}
+	if _, err := classifyMethods(*fork, base); err != nil {
 		die("%v", err)
 	}
 	js, _ := json.Marshal(flds)
@@ -2153,7 +2341,14 @@ func cmdReplay(args []string) {
 		for _, fi := range flds {
 			r.byName[fi.Name] = fi
 		}
-		r.h["h1"] = r.fresh()
+		r.h["h1"] = r.fresh(n)
+		// the start state itself: cached roots of the constructor-built tree = roots of its content rebuilt from bytes
+		r.stepNo = 0
+		if _, raw0, err := e.project(r.h["h1"]); err != nil {
+			r.dev("C15", "projection_failed", "", "init", "h1", "%v", err)
+		} else {
+			r.checkRoots("h1", r.h["h1"], raw0, "init")
+		}
 		for k := range steps {
 			r.stepNo = k + 1
 			r.lastStep = &steps[k]
@@ -2190,6 +2385,8 @@ func main() {
 	switch os.Args[1] {
 	case "caps":
 		cmdCaps(os.Args[2:])
+	case "methods":
+		cmdMethods(os.Args[2:])
 	case "replay":
 		cmdReplay(os.Args[2:])
 	default:
